@@ -2,8 +2,8 @@
    regenerated predicates (Gen.ErrorsCore) and by the hand model (C13.Model).  Definitions only. *)
 From Coq Require Import ZArith List String Ascii Bool.
 Import ListNotations.
-Open Scope Z_scope.
 Open Scope string_scope.
+Open Scope Z_scope.
 
 (* mypy.errorcodes.ErrorCode: equality/hash are by `code` only; sub-codes are never nested
    (asserted in ErrorCode.__init__), so `sub_code_of` is represented by the parent's name. *)
